@@ -679,18 +679,87 @@ class Registries:
 
 
 def presets(p: Project) -> dict[str, dict]:
-    """Literal-evaluate the make() bodies of the presets (commonmark, default, zero)."""
-    out = {}
-    for name in ("commonmark", "default", "zero"):
+    """Evaluate the make() bodies of the presets (commonmark, default, zero): a literal return, or straight-line code that builds
+    the mapping from literals, other presets' make() and item stores (constant folding of a closed, argument-free function)."""
+    import copy
+    memo: dict[str, dict] = {}
+
+    def ev(name: str, depth: int = 0) -> dict:
+        if name in memo:
+            return copy.deepcopy(memo[name])
+        if depth > 3:
+            raise AnchorError("presets refer to each other in a cycle")
         f = p.func(f"presets/{name}.py:make")
-        rets = [n for n in ast.walk(f.node) if isinstance(n, ast.Return)]
-        if len(rets) != 1 or rets[0].value is None:
-            raise AnchorError(f"presets/{name}.py:make is not a single literal return")
+        env: dict[str, Any] = {}
+
+        def val(e: ast.AST) -> Any:
+            if isinstance(e, ast.Constant):
+                return e.value
+            if isinstance(e, ast.Name):
+                if e.id in env:
+                    return env[e.id]
+                raise KeyError(e.id)
+            if isinstance(e, ast.Dict):
+                out_: dict = {}
+                for k, v in zip(e.keys, e.values):
+                    if k is None:
+                        out_.update(val(v))          # {**other}
+                    else:
+                        out_[val(k)] = val(v)
+                return out_
+            if isinstance(e, (ast.List, ast.Tuple)):
+                xs = [val(x) for x in e.elts]
+                return xs if isinstance(e, ast.List) else tuple(xs)
+            if isinstance(e, ast.Subscript):
+                return val(e.value)[val(e.slice)]
+            if isinstance(e, ast.UnaryOp) and isinstance(e.op, ast.USub):
+                return -val(e.operand)
+            if isinstance(e, ast.Call) and not e.args and not e.keywords:
+                # <other preset>.make()
+                fn = e.func
+                if isinstance(fn, ast.Attribute) and fn.attr == "make" and isinstance(fn.value, ast.Name):
+                    r_ = p.resolve(f.module, fn.value)
+                    if isinstance(r_, Module) and r_.rel.startswith("presets/"):
+                        return ev(r_.rel[len("presets/"):-3], depth + 1)
+                if isinstance(fn, ast.Name):
+                    r_ = p.resolve(f.module, fn)
+                    if isinstance(r_, Func) and r_.name == "make" and r_.module.rel.startswith("presets/"):
+                        return ev(r_.module.rel[len("presets/"):-3], depth + 1)
+            if isinstance(e, ast.Call) and isinstance(e.func, ast.Name) and e.func.id in ("dict", "list") and len(e.args) == 1 and not e.keywords:
+                return copy.deepcopy(val(e.args[0]))
+            if isinstance(e, ast.Call) and isinstance(e.func, ast.Attribute) and e.func.attr == "copy" and not e.args:
+                return copy.copy(val(e.func.value))
+            if isinstance(e, ast.Call) and isinstance(e.func, ast.Name) and e.func.id == "deepcopy" and len(e.args) == 1:
+                return copy.deepcopy(val(e.args[0]))
+            raise KeyError(U(e))
         try:
-            out[name] = ast.literal_eval(rets[0].value)
-        except Exception:
-            raise AnchorError(f"presets/{name}.py:make does not return a literal")
-    return out
+            for s_ in f.node.body:
+                if isinstance(s_, ast.Expr) and isinstance(s_.value, ast.Constant):
+                    continue
+                if isinstance(s_, ast.Return) and s_.value is not None:
+                    memo[name] = val(s_.value)
+                    return copy.deepcopy(memo[name])
+                if isinstance(s_, (ast.Assign, ast.AnnAssign)) and getattr(s_, "value", None) is not None:
+                    v = val(s_.value)
+                    for t in (s_.targets if isinstance(s_, ast.Assign) else [s_.target]):
+                        if isinstance(t, ast.Name):
+                            env[t.id] = v
+                        elif isinstance(t, ast.Subscript):
+                            val(t.value)[val(t.slice)] = v
+                        else:
+                            raise KeyError(U(t))
+                    continue
+                if isinstance(s_, ast.Expr) and isinstance(s_.value, ast.Call) and isinstance(s_.value.func, ast.Attribute) \
+                        and s_.value.func.attr in ("update", "append", "extend", "remove", "pop") and not s_.value.keywords:
+                    getattr(val(s_.value.func.value), s_.value.func.attr)(*[val(a) for a in s_.value.args])
+                    continue
+                raise KeyError(type(s_).__name__)
+        except AnchorError:
+            raise
+        except Exception as ex:          # noqa: BLE001
+            raise AnchorError(f"presets/{name}.py:make does not return a literal (and is not straight-line code over literals: {ex})")
+        raise AnchorError(f"presets/{name}.py:make has no return")
+    return {name: ev(name) for name in ("commonmark", "default", "zero")}
 
 
 def loc(m: Module, node: ast.AST) -> str:
